@@ -59,6 +59,18 @@ CHECKS = {
   "text": "For every analysed rule with hooks and all inputs: each @check is called on a reference to the final rule value (the one returned in Ok) plus the user context iff configured, every Ok return is dominated by the true edge of every check, a false check returns an ordinary Err reported on the value's own state; @char checks run on the next character of the entry state and dominate all alternatives; @extern functions receive s(entry) and Ok((r,n))/Err(e) map to r.into()+advance_safe(entry,n) / the extern error on the entry state. Generator: has_user_context has exactly the expected writers and both hook templates read it.",
   "note": TRUST + "I-level on the analysed instances (6 check sites, 1 @char check, 3 externs in the workspace; corpus in thorough).",
  },
+ "C15": {
+  "category": "other",
+  "technique": "must-pass-through on tool entry points, control-dependence of error returns on restriction facts, sibling agreement of flag reads, panic inventory, identifier-sink classification via format templates, call-graph SCCs",
+  "text": "Decides structurally: (exit) on the Err edge of the tools' entry points every path reaches a non-zero exit, Compile::run returns the inner result, no fallible call result (78 tracked) is ignored; (restrict) each of the 12 documented restrictions has an error return control-dependent on its defining facts; (cached) the three sites deciding 'rule is cached' read the same flags; (panic) all 23 panic-capable constructs reachable from the compiler entry points are discharged by a reasoned entry; (ident) identifier constructors are safe where the format template starts with a literal identifier prefix, others are reported; (rec) recursion through by-name lookups needs a cycle guard. Three genuine defects were repaired (D2 exit status, D3 @leftrec without Clone - fix commits in /repo), three are recorded as known findings (D5 unvalidated identifiers/keywords, D6 include cycle, D7 recursion depth).",
+  "note": TRUST + "'never hangs' beyond absence of unguarded by-name recursion is not decided. Known findings in /verif/known_findings.json are matched by exact key.",
+ },
+ "C16": {
+  "category": "other",
+  "technique": "type-resolved scan for unordered-container iteration and nondeterminism sources over the generator's call graph; identity-flow rule on the three integration routes",
+  "text": "Determinism is argued from the absence of its only possible causes in the generator's own code, decided over every call (4821) and every function reachable from generate_code/from_str/generate_source_header (540): no iteration over HashMap/HashSet, no such container stored in a generator data structure, no time/env/random/id/address source; and route independence from an identity-flow rule: cli, build helper and macro parse the unmodified text, call the single entry point with default(+derives) settings and emit its Display/token stream unchanged.",
+  "note": TRUST + "Determinism of dependencies (proc_macro2, quote, crc) is assumed; BUILD_TIME is a compile-time constant of the generator build.",
+ },
  "C19": {
   "category": "other",
   "technique": "dominance/post-dominance pairing rule over generated rule functions + effect/type rules on tracer",
@@ -69,4 +81,4 @@ CHECKS = {
 
 _PENDING = "check not built yet in this round (design in DESIGN.md §3); no verdict is claimed until it is"
 NOT_APPLICABLE = {pid: _PENDING for pid in
-  ["C01","C02","C03","C11","C12","C13","C15","C16","C17","C18"]}
+  ["C01","C02","C03","C11","C12","C13","C17","C18"]}
